@@ -89,11 +89,20 @@ func c20Bytes(c *admCase) ([]byte, error) {
 		}
 	}
 	if c.Decoy != "none" {
-		d := zmember{c.Decoy + "/decoy-unreferenced.xml", `<?xml version="1.0"?><decoy/>`, false}
-		if c.Order == "decoyfirst" {
-			rest = append([]zmember{d}, rest...)
+		dir := strings.TrimSuffix(c.Decoy, "+rels")
+		ds := []zmember{{dir + "/decoy-unreferenced.xml", `<?xml version="1.0"?><decoy/>`, false}}
+		if strings.HasSuffix(c.Decoy, "+rels") {
+			// the stray part of another format together with a package relationship naming it (still no OOXML package:
+			// there is no [Content_Types].xml, and the mimetype member says what the package is)
+			main := map[string]string{"word": "word/document.xml", "xl": "xl/workbook.xml", "ppt": "ppt/presentation.xml"}[dir]
+			ds = []zmember{
+				{"_rels/.rels", `<?xml version="1.0" encoding="UTF-8" standalone="yes"?><Relationships xmlns="http://schemas.openxmlformats.org/package/2006/relationships"><Relationship Id="rId1" Type="http://schemas.openxmlformats.org/officeDocument/2006/relationships/officeDocument" Target="` + main + `"/></Relationships>`, false},
+				{main, `<?xml version="1.0"?><stray>StrayPartText</stray>`, false}}
+		}
+		if c.Order == "decoyfirst" || c.Order == "mimelast-decoyfirst" {
+			rest = append(ds, rest...)
 		} else {
-			rest = append(rest, d)
+			rest = append(rest, ds...)
 		}
 	}
 	if fixed == 0 {
